@@ -177,17 +177,52 @@ Theorem C12_any_packet_restarts_silence_timer :
     step nconn ids s (LDeliver k) = Some s' -> since s' k = 0 /\ step nconn ids s' (LSilence k) = None.
 Proof. exact any_packet_restarts_silence_timer. Qed.
 
-(** non-vacuity: 9 quiet seconds, a pong, 9 more seconds: silence is not enabled;
-    one more quiet second after ten: it is *)
+(** non-vacuity: 9 seconds without a server packet (the pinger pings every 3 s), a
+    pong, 9 more such seconds: silence is not enabled; ten quiet seconds: it is *)
 Example C12_silence_example :
   let ids := fun i => (100 + N.of_nat i)%N in
-  let t9 := repeat (LTick 0) 9 in
+  let t3 := [LTick 0; LTick 0; LTick 0; LPingOk 0] in
+  let t9 := t3 ++ t3 ++ t3 in
   (exists s, exec 1 ids init_state (t9 ++ [LEmit 0 PPong; LDeliver 0] ++ t9) = Some s /\
              step 1 ids s (LSilence 0) = None) /\
   (exists s, exec 1 ids init_state (t9 ++ [LTick 0; LSilence 0]) = Some s /\ rq s 0 = 1).
 Proof.
   cbv zeta. split; eexists; (split; [vm_compute; reflexivity|]); vm_compute; reflexivity.
 Qed.
+
+(** The pinger (`go c.ping()` of NewConnection) is a process of the connection, not
+    of one transport: in every reachable state it is alive and enabled - after any
+    number of failed pings, failed sends and reconnects - and on a Connected
+    connection it writes its ping; time cannot run more than [ping_ticks] seconds
+    past its last ping.  (So a re-established connection is pinged like a fresh one,
+    the server's pongs keep restarting the silence timer, C12_silence_only_after_
+    quiet_period applies.)  The design in which the pinger returns after a failed
+    ping is refuted in Proofs/ClientHistory.v. *)
+Theorem C12_pinger_alive :
+  forall nconn ids s k, reachable nconn ids init_state s -> pinger s k = true.
+Proof. exact pinger_alive. Qed.
+
+Theorem C12_pinger_enabled :
+  forall nconn ids s k,
+    reachable nconn ids init_state s ->
+    (exists l, ping_label k l /\ step nconn ids s l <> None) /\
+    (status s k = true -> step nconn ids s (LPingOk k) <> None).
+Proof. exact pinger_enabled. Qed.
+Print Assumptions C12_pinger_enabled.
+
+Theorem C12_ping_deadline :
+  forall nconn ids s k, reachable nconn ids init_state s -> psince s k <= ping_ticks.
+Proof. exact psince_bounded. Qed.
+
+Theorem C12_pinger_lost_refuted :
+  exists s, pexec true pinit [PDrop; PPing; PReconnect] = Some s /\
+            pconnected s = true /\ pbroken s = false /\
+            forall ls s', pexec true s ls = Some s' -> pstep true s' PPing = None.
+Proof. exact pinger_lost_refuted. Qed.
+
+Theorem C12_pinger_kept :
+  forall ls s, pexec false pinit ls = Some s -> pstep false s PPing <> None.
+Proof. exact pinger_kept. Qed.
 
 (** PARTIAL (liveness): after a drop the path ping failure -> reconnect -> done is
     enabled and re-establishes the connection; that it is taken within a bounded
